@@ -1283,6 +1283,12 @@ def _scenario_steps(ctx: Ctx, scn, collect, shared_inner=None, sink=None):
         kept = ntr > 0 and not sol[-1]["raised"]
         if kept:
             t_final = tl()
+            # the same clause through the Lean model: robust loss (constructor glue `normKernels` + `robustLoss`) of the
+            # residuals at the parameters left behind, in 192-bit arithmetic
+            res_ = residuals_of(module, cur_args[0], cur_args[1])
+            if sum(r_.numel() for r_ in res_) <= 240 and all_finite(*res_) and "loss" in collect and math.isfinite(retf):
+                collect["loss"].append({"line": "c08.lossk " + kspec_wire(kspec, scn.get("kernel_wrap")) + " " + outputs_wire(res_),
+                                        "scn": scn, "call": call, "ret": retf, "tol": float(tol_loss(t_final))})
             if far(retf, t_final, tol_loss(t_final), dtype):
                 fail(f"true-loss: step returned {retf!r}; the robust loss at the parameters it left behind is {t_final!r} "
                      f"(call {call}, {ntr} trials)")
@@ -1590,6 +1596,20 @@ def settle_lm(ctx: Ctx, items, ambiguous_scn_calls):
                 ctx.disagree("lm", it["scn"], f"call {call}: the model's lmStep (fuel reject+1) differs from the state after {ntr} passes")
 
 
+def settle_lmloss(ctx: Ctx, items):
+    if not items:
+        return
+    reps = ctx.driver.run([it["line"] for it in items])
+    for it, rep in zip(items, reps):
+        want = common.reply_nums(rep)[0]
+        ctx.count("lm-loss.compared")
+        if abs(Fraction(it["ret"]) - want) > Fraction(it["tol"]):
+            ctx.disagree("lm-loss", it["scn"], f"call {it['call']}: step returned {it['ret']!r}, model lossOf at the parameters left "
+                                              f"behind = {float(want)!r}")
+            ctx.fail(it["scn"], f"true-loss: step returned {it['ret']!r}; the robust loss (model) at the parameters it left behind is "
+                                f"{float(want)!r} (call {it['call']})")
+
+
 def settle_gn(ctx: Ctx, items):
     if not items:
         return
@@ -1855,6 +1875,49 @@ def run_edithist_stream(ctx: Ctx, n, rng=None):
     settle_updates(ctx, reqs, "edithist")
 
 
+def run_init_stream(ctx: Ctx, n, rng=None):
+    """what the strategy constructors (and LM's merge with its own defaults) put into the param group vs `initConstant /
+    initAdaptive / initTrust`; arguments by keyword and by position"""
+    rng = rng or ctx.rng
+    P = pp()
+    items = []
+    for i in range(n):
+        spec = gen_strategy_spec(rng)
+        positional = rng.random() < 0.5
+        strat = make_strategy(spec, positional)
+        m = nn.Linear(1, 1)
+        opt = P.optim.LM(m, strategy=strat, min=1e-6, max=1e32)
+        pg = opt.param_groups[0]
+        kind = spec["kind"]
+        a, b = (spec["radius"], spec["down"]) if kind == "trust" else (spec["damping"], spec["down"])
+        case = {"kind": "init", "spec": spec, "positional": positional}
+        want_hyper = {"high": spec["high"], "low": spec["low"], "up": spec["up"]} if kind != "constant" else {}
+        if kind == "trust":
+            want_hyper["factor"] = spec["factor"]
+        bad = [k_ for k_, v_ in want_hyper.items() if pg.get(k_) != v_]
+        if kind != "constant" and (strat.min != spec["min"] or strat.max != spec["max"]):
+            bad.append("min/max")
+        if dict(strat.defaults) != {k_: v_ for k_, v_ in pg.items() if k_ in strat.defaults}:
+            bad.append("param group differs from strategy.defaults")
+        if pg.get("min") != 1e-6 or pg.get("max") != 1e32:
+            bad.append("LM min/max")
+        if bad:
+            ctx.fail(case, f"init: {kind} constructed {'positionally' if positional else 'by keyword'}: wrong entries {bad} in the param group")
+        items.append({"line": f"c08.init {KINDS[kind]} {to_wire(a)} {to_wire(b)}", "case": case, "pg": pg_state(pg), "kind": kind})
+        ctx.count(f"init.{kind}")
+        ctx.note_case(("init", kind, positional, common.sig_mag(a)), True)
+    reps = ctx.driver.run([it["line"] for it in items])
+    for it, rep in zip(items, reps):
+        want = common.reply_nums(rep)
+        obs = it["pg"]
+        keys = {"constant": ["damping"], "adaptive": ["damping", "down"], "trust": ["damping", "radius", "down"]}[it["kind"]]
+        for kx, w in zip(["damping", "radius", "down"], want):
+            if kx in keys and (kx not in obs or not rel_close(obs[kx], w, 4 * EPS["float64"])):
+                ctx.disagree("init", it["case"], f"{it['kind']}: pg[{kx!r}] = {obs.get(kx)!r}, model {float(w)!r}")
+                ctx.fail(it["case"], f"init: {it['kind']} constructor: pg[{kx!r}] = {obs.get(kx)!r}, documented value {float(w)!r}")
+                break
+
+
 def run_hist_stream(ctx: Ctx, n, rng=None):
     rng = rng or ctx.rng
     items = []
@@ -1912,7 +1975,8 @@ def run_loss_stream(ctx: Ctx, n, rng=None):
                 "shapes": [[rng.choice([1, 2, 3])] * rng.randint(0, 2) + [rng.choice([1, 2, 3, 6])] for _ in range(nout)],
                 "scale": rng.choice([1e-3, 0.3, 1.0, 30.0]),
                 # one output mixing regimes item by item: exact zero rows, tiny, on the Huber threshold, ordinary, large
-                "mixed": rng.random() < 0.5}
+                "mixed": rng.random() < 0.5, "via": rng.choice(["lm", "gn", "raw"]),
+                "wrap": rng.choice([None, "list1"])}
         items.append(loss_case(ctx, case))
         ctx.count(f"loss.nout{nout}.{'none' if kspec is None else ('single' if isinstance(kspec[0], str) else 'list')}")
         ctx.note_case(("loss", nout, dtype, str(kspec)), True)
@@ -1925,6 +1989,24 @@ def run_loss_stream(ctx: Ctx, n, rng=None):
             ctx.disagree("loss", it["case"], f"RobustModel.loss = {got!r}, model robustLoss = {float(want)!r}")
             if abs(got - it["oracle"]) > tol:
                 ctx.fail(it["case"], f"robust-loss: RobustModel.loss returned {got!r} but Σ ρ_i(‖r‖²) over the last dimension is {it['oracle']!r}")
+
+
+def kspec_wire(kspec, wrap=None) -> str:
+    """the `kernel=` argument as the user writes it (None / one kernel / list with None entries) for op c08.lossk"""
+    one = lambda kk: f"{KCODE[kk[0]]} {to_wire(kk[1])}"
+    if kspec is None:
+        return "0"
+    if isinstance(kspec[0], str):
+        return ("2 1 " + one(kspec)) if wrap == "list1" else ("1 " + one(kspec))
+    return f"2 {len(kspec)} " + " ".join("-" if kk is None else one(kk) for kk in kspec)
+
+
+def outputs_wire(outs) -> str:
+    toks = [str(len(outs))]
+    for o in outs:
+        o2 = o.double().reshape(-1, o.shape[-1])
+        toks.append(f"{o2.shape[0]} {o2.shape[1]} " + wire_list(o2.flatten().tolist()))
+    return " ".join(toks)
 
 
 def loss_case(ctx, case):
@@ -1950,23 +2032,24 @@ def loss_case(ctx, case):
 
         def forward(self, x):
             return tuple(o + 0 * self.p for o in outs) if len(outs) > 1 else outs[0] + 0 * self.p
+    # through the optimizers' own constructors (kernel normalisation is part of the modelled code: `normKernels`)
     kern = make_kernels(case["kernel"])
-    if kern is not None:
-        kern = [kern] if not isinstance(kern, (tuple, list)) else kern
-        kern = [kk if kk is not None else P.optim.optimizer.Trivial() for kk in kern]
-    rm = P.optim.optimizer.RobustModel(Fixed(), kern)
+    via = case.get("via", "lm")
+    if via == "raw":
+        k2 = kern
+        if k2 is not None:
+            k2 = [k2] if not isinstance(k2, (tuple, list)) else k2
+            k2 = [kk if kk is not None else P.optim.optimizer.Trivial() for kk in k2]
+        rm = P.optim.optimizer.RobustModel(Fixed(), k2)
+    else:
+        if case.get("wrap") == "list1" and kern is not None and not isinstance(kern, (tuple, list)):
+            kern = [kern]
+        rm = (P.optim.LM(Fixed(), kernel=kern) if via == "lm" else P.optim.GN(Fixed(), kernel=kern)).model
     with torch.no_grad():
         got = float(rm.loss(torch.zeros(1, dtype=dt), None))
-    ks = kernel_list(case["kernel"])
-    toks = [str(len(ks))]
-    for kk in ks:
-        toks.append("0" if kk is None else f"{KCODE[kk[0]]} {to_wire(kk[1])}")
-    toks.append(str(len(outs)))
-    for o in outs:
-        o2 = o.double().reshape(-1, o.shape[-1])
-        toks.append(f"{o2.shape[0]} {o2.shape[1]} " + wire_list(o2.flatten().tolist()))
     oracle, scale, _ = loss_and_scale(outs, case["kernel"])
-    return {"line": "c08.loss " + " ".join(toks), "case": case, "got": got, "oracle": oracle, "scale": scale}
+    return {"line": "c08.lossk " + kspec_wire(case["kernel"], case.get("wrap")) + " " + outputs_wire(outs), "case": case,
+            "got": got, "oracle": oracle, "scale": scale}
 
 
 # ============================================================================ scenario generation
@@ -2170,7 +2253,7 @@ def script_scenarios(rng, rejects, kinds, ncalls_extra=True, ks=None):
 
 
 def run_opt_stream(ctx: Ctx, scns):
-    collect = {"upd": [], "lm": [], "gn": []}
+    collect = {"upd": [], "lm": [], "gn": [], "loss": []}
     for i, scn in enumerate(scns):
         if scn.get("pair"):
             run_pair(ctx, scn, collect)
@@ -2192,6 +2275,7 @@ def run_opt_stream(ctx: Ctx, scns):
             amb.add((id(r["scn"]), callno))
     settle_lm(ctx, collect["lm"], amb)
     settle_gn(ctx, collect["gn"])
+    settle_lmloss(ctx, collect["loss"])
 
 
 TWIN_KEYS = ("call_style", "ctor_style", "input_container", "scalar_input", "grad_mode", "input_requires_grad", "kernel_wrap",
@@ -2441,6 +2525,7 @@ def run_corpus(ctx: Ctx):
     import random
     rc = random.Random(0xC08C)
     run_upd_stream(ctx, 300, rc)
+    run_init_stream(ctx, 60, rc)
     run_hist_stream(ctx, 24, rc)
     run_edithist_stream(ctx, 20, rc)
     run_loss_stream(ctx, 40, rc)
@@ -2459,6 +2544,7 @@ def run(ctx: Ctx):
     reset_shared()
     run_corpus(ctx)
     run_upd_stream(ctx, ctx.pick(1000, 12000))
+    run_init_stream(ctx, ctx.pick(60, 600))
     run_hist_stream(ctx, ctx.pick(60, 600))
     run_edithist_stream(ctx, ctx.pick(20, 300))
     run_loss_stream(ctx, ctx.pick(80, 800))
@@ -2482,7 +2568,7 @@ def search(ctx: Ctx):
     (all endings for every reject, every strategy; more random histories; a grid of direct updates)"""
     rng = ctx.rng
     scr = script_scenarios(rng, list(range(0, 17)), ["constant", "adaptive", "trust"])
-    collect = {"upd": [], "lm": [], "gn": []}
+    collect = {"upd": [], "lm": [], "gn": [], "loss": []}
     for scn in scr:
         run_optimizer_scenario(ctx, scn, collect)
         if ctx.failures:
@@ -2523,7 +2609,7 @@ def replay(ctx: Ctx, case) -> bool:
     n0 = len(ctx.failures)
     reset_shared()
     if kind == "opt":
-        collect = {"upd": [], "lm": [], "gn": []}
+        collect = {"upd": [], "lm": [], "gn": [], "loss": []}
         if c.get("pair"):
             run_pair(ctx, c, collect)
         elif c.get("twin"):
@@ -2533,6 +2619,7 @@ def replay(ctx: Ctx, case) -> bool:
         settle_updates(ctx, collect["upd"], "lm-upd")
         settle_lm(ctx, collect["lm"], set())
         settle_gn(ctx, collect["gn"])
+        settle_lmloss(ctx, collect["loss"])
     elif kind == "upd":
         spec = c["spec"]
         dt = getattr(torch, c["dtype"])
@@ -2548,6 +2635,11 @@ def replay(ctx: Ctx, case) -> bool:
         settle_updates(ctx, [upd_request(c, spec["kind"], up, c["dtype"], where="direct update")], "upd")
     elif kind == "hist":
         settle_hist(ctx, [run_hist_case(ctx, c)])
+    elif kind == "init":
+        import random
+        print("  (init cases are re-generated from the spec)")
+        strat = make_strategy(c["spec"], c.get("positional", False))
+        print("  strategy.defaults:", strat.defaults)
     elif kind == "edithist":
         settle_updates(ctx, run_edithist_case(ctx, c), "edithist")
     elif kind == "loss":
